@@ -22,13 +22,22 @@ the function; the status module then contains an `#eval throw`, so `lake build P
                    following `super().__init__(...)`, and inlined in terms of the constructor parameters),
         self.X    for a `@property` that returns `self._Y`,
         np.power / np.log / np.exp / np.sqrt / np.log10 / np.fabs / np.abs / np.sign  (-> `Transc.*`),
-        np.asarray(x) and self._as_consistant_arrays(...)  (identity on the mathematical values; the shape
-        check is array glue, exercised by the correspondence run),
+        semantically equal spellings of the same operations:  x ** y,  np.float_power, builtin pow(x, y) / abs(x) / float(x),
+        np.square(x) (-> x * x), np.reciprocal(x) (-> 1.0 / x), np.negative, np.add / subtract / multiply / divide /
+        true_divide, np.maximum / np.minimum / builtin max / min of two numbers,
+        np.log1p(x) / np.expm1(x)  (-> `np_log1p` / `np_expm1` of Generated/Prelude.lean: accurate at Float, and
+        `Real.log (1 + x)` / `Real.exp x - 1` over the reals),
+        np.where(c, a, b) and `a if c else b`  (-> `if c then a else b`),
+        module level numeric constants (`_HALF = 0.5`, assigned once),
+        x op= e  (+= -= *= /= **=),  annotated assignments,
+        np.asarray(x) / np.asarray(x, dtype=float) and self._as_consistant_arrays(...)  (identity on the mathematical
+        values; the shape check is array glue, exercised by the correspondence run),
         self.m(args, kw=...)  (call of another translated method), super().m(args)  (the parent's body,
         instantiated with THIS class's attributes, emitted as `super_m`),
         calls of a method declared opaque in the whitelist (an iterative solver) -> an explicit function
         parameter of the generated definition,
-        tuples (-> Lean tuples),  a > b, a < b, >=, <=, `or`, `and`, `(cmp).any()`  inside guards.
+        tuples (-> Lean tuples),  a > b, a < b, >=, <=, chained comparisons, `or`, `and`, `not`, `(cmp).any()`,
+        `np.any(cmp)`  inside guards and conditions.
 
 Generated definitions are generic in the carrier with the variable bundle of Model/Num.lean and live in
 namespace PylifeVerif.Generated.<Class>.  The driver runs them at Float (correspondence K validates this
@@ -70,8 +79,39 @@ WHITELIST = [
 ]
 
 NP_UNARY = {"log": "Transc.log", "exp": "Transc.exp", "sqrt": "Transc.sqrt", "log10": "Transc.log10",
-            "fabs": "Transc.abs", "abs": "Transc.abs", "absolute": "Transc.abs", "sign": "Transc.sign"}
-NP_IDENTITY = {"asarray", "asanyarray", "array", "float64"}
+            "fabs": "Transc.abs", "abs": "Transc.abs", "absolute": "Transc.abs", "sign": "Transc.sign",
+            # defined in Generated/Prelude.lean (closedform.PRELUDE): accurate at Float, = log (1 + x) / exp x - 1 over ℝ
+            "log1p": "np_log1p", "expm1": "np_expm1"}
+NP_IDENTITY = {"asarray", "asanyarray", "array", "float64", "double", "atleast_1d"}
+# np.<f>(a, b) that are spellings of a binary operator
+NP_BINARY = {"add": "+", "subtract": "-", "multiply": "*", "divide": "/", "true_divide": "/"}
+# `dtype=` values under which np.asarray / np.array stay the identity on the mathematical values
+FLOAT_DTYPES = {"float", "np.float64", "numpy.float64", "np.double", "numpy.double", "'float64'", "'float'", "'d'",
+                "'f8'", "np.float_", "np.longdouble"}
+
+
+def np_unary_text(attr, x):
+    """Lean text of np.<attr>(x) for the unary functions that are spellings of arithmetic; None if attr is not one."""
+    if attr == "square":
+        return f"({x} * {x})"
+    if attr == "reciprocal":
+        return f"(1.0 / {x})"
+    if attr == "negative":
+        return f"(-{x})"
+    if attr == "positive":
+        return x
+    return None
+
+
+def is_float_cast_keywords(keywords):
+    """`dtype=<a float type>` (and `copy=` / `order=`) only: the cast is the identity on float values"""
+    for k in keywords:
+        if k.arg == "dtype":
+            if ast.unparse(k.value) not in FLOAT_DTYPES:
+                return False
+        elif k.arg not in ("copy", "order"):
+            return False
+    return True
 IDENTITY_METHODS = {"_as_consistant_arrays"}
 LEAN_RESERVED = {"at", "from", "fun", "end", "then", "else", "if", "let", "have", "show", "do", "in", "with",
                  "match", "def", "theorem", "open", "section", "namespace", "variable", "where", "by", "for",
@@ -88,7 +128,7 @@ tuple returns -> Lean tuples, `if c: raise` -> `<f>_raises : Bool`, numeric lite
 every sub-expression is parenthesised exactly as Python's parser grouped it (operation order is preserved,
 so + - * / are bit-exact at Float).
 -/
-import Model.Num
+import Generated.Prelude
 
 set_option linter.unusedVariables false
 
@@ -174,17 +214,22 @@ class Scope:
             return literal(n.value, self.where, n), 1
         if isinstance(n, ast.Name):
             if n.id not in self.locals:
-                self.fail(f"name `{n.id}` is not a parameter or a previously assigned local", n)
+                c = self.module_constant(n.id)
+                if c is not None:
+                    return c, 1
+                self.fail(f"name `{n.id}` is not a parameter, a previously assigned local or a numeric module constant", n)
             return lname(n.id), 1
         if isinstance(n, ast.BinOp):
-            ops = {ast.Add: "+", ast.Sub: "-", ast.Mult: "*", ast.Div: "/"}
             a = self.scalar(n.left)
             b = self.scalar(n.right)
-            if isinstance(n.op, ast.Pow):
-                return f"(Transc.pow {a} {b})", 1
-            if type(n.op) not in ops:
-                self.fail(f"unsupported operator {type(n.op).__name__}", n)
-            return f"({a} {ops[type(n.op)]} {b})", 1
+            return self.binop(n.op, a, b, n), 1
+        if isinstance(n, ast.IfExp):
+            c = self.cond(n.test)
+            a, ara = self.expr(n.body)
+            b, arb = self.expr(n.orelse)
+            if ara != arb:
+                self.fail("branches of a conditional expression have different arity", n)
+            return f"(if {c} then {a} else {b})", ara
         if isinstance(n, ast.UnaryOp):
             a = self.scalar(n.operand)
             if isinstance(n.op, ast.USub):
@@ -202,6 +247,30 @@ class Scope:
         if isinstance(n, ast.Call):
             return self.call(n)
         self.fail(f"unsupported expression {type(n).__name__}: `{ast.unparse(n)}`", n)
+
+    BINOPS = {ast.Add: "+", ast.Sub: "-", ast.Mult: "*", ast.Div: "/"}
+
+    def binop(self, op, a, b, node):
+        if isinstance(op, ast.Pow):
+            return f"(Transc.pow {a} {b})"
+        if type(op) not in self.BINOPS:
+            self.fail(f"unsupported operator {type(op).__name__}", node)
+        return f"({a} {self.BINOPS[type(op)]} {b})"
+
+    def module_constant(self, name):
+        """`NAME = <numeric expression of literals / other constants>` assigned exactly once at module level"""
+        mod = self.owner.mod if self.owner.is_class else self.owner
+        node = mod.constants.get(name)
+        if node is None:
+            return None
+        if name in mod.constants_in_progress:
+            self.fail(f"module constant `{name}` is defined in terms of itself")
+        mod.constants_in_progress.add(name)
+        try:
+            sub = Scope(mod, f"{os.path.basename(mod.path)}:{name}", None)
+            return sub.scalar(node)
+        finally:
+            mod.constants_in_progress.discard(name)
 
     def scalar(self, n):
         t, ar = self.expr(n)
@@ -233,15 +302,40 @@ class Scope:
         f = n.func
         # np.<fn>(...)
         if isinstance(f, ast.Attribute) and isinstance(f.value, ast.Name) and f.value.id in ("np", "numpy"):
+            if f.attr in NP_IDENTITY and len(n.args) == 1 and is_float_cast_keywords(n.keywords):
+                return self.expr(n.args[0])
             if n.keywords:
                 self.fail(f"keyword arguments in `{ast.unparse(n)}`", n)
-            if f.attr == "power" and len(n.args) == 2:
+            if f.attr in ("power", "float_power") and len(n.args) == 2:
                 return f"(Transc.pow {self.scalar(n.args[0])} {self.scalar(n.args[1])})", 1
+            if f.attr in NP_BINARY and len(n.args) == 2:
+                return f"({self.scalar(n.args[0])} {NP_BINARY[f.attr]} {self.scalar(n.args[1])})", 1
+            if f.attr in ("maximum", "minimum") and len(n.args) == 2:
+                return f"(py_{f.attr[:3]} {self.scalar(n.args[0])} {self.scalar(n.args[1])})", 1
+            if f.attr == "where" and len(n.args) == 3:
+                c = self.cond(n.args[0])
+                a, ara = self.expr(n.args[1])
+                b, arb = self.expr(n.args[2])
+                if ara != arb:
+                    self.fail("branches of np.where have different arity", n)
+                return f"(if {c} then {a} else {b})", ara
+            if len(n.args) == 1:
+                t = np_unary_text(f.attr, self.scalar(n.args[0])) if f.attr not in NP_UNARY else None
+                if t is not None:
+                    return t, 1
             if f.attr in NP_UNARY and len(n.args) == 1:
                 return f"({NP_UNARY[f.attr]} {self.scalar(n.args[0])})", 1
-            if f.attr in NP_IDENTITY and len(n.args) == 1:
-                return self.expr(n.args[0])
             self.fail(f"unsupported numpy call `{ast.unparse(n)}`", n)
+        # builtins that are spellings of the same arithmetic
+        if isinstance(f, ast.Name) and f.id not in self.locals and not n.keywords:
+            if f.id == "abs" and len(n.args) == 1:
+                return f"(Transc.abs {self.scalar(n.args[0])})", 1
+            if f.id == "float" and len(n.args) == 1:
+                return self.expr(n.args[0])
+            if f.id == "pow" and len(n.args) == 2:
+                return f"(Transc.pow {self.scalar(n.args[0])} {self.scalar(n.args[1])})", 1
+            if f.id in ("max", "min") and len(n.args) == 2:
+                return f"(py_{f.id} {self.scalar(n.args[0])} {self.scalar(n.args[1])})", 1
         # (comparison).any()
         if isinstance(f, ast.Attribute) and f.attr in ("any", "all") and not n.args and not n.keywords \
                 and isinstance(f.value, (ast.Compare, ast.BoolOp)):
@@ -254,9 +348,10 @@ class Scope:
                 and f.value.func.id == "super" and not f.value.args and self.owner.is_class:
             return self.owner.super_call(f.attr, n, self)
         # module level function
-        if isinstance(f, ast.Name) and not self.owner.is_class and f.id in self.owner.functions:
-            em = self.owner.emit_function(f.id)
-            params = self.owner.params_of(self.owner.functions[f.id])
+        mod = self.owner.mod if self.owner.is_class else self.owner
+        if isinstance(f, ast.Name) and f.id not in self.locals and f.id in mod.functions:
+            em = mod.emit_function(f.id)
+            params = mod.params_of(mod.functions[f.id])
             args = self.call_args(n, params, f.id)
             return "(" + " ".join([em.name] + args) + ")", em.arity
         self.fail(f"unsupported call `{ast.unparse(n)}`", n)
@@ -264,23 +359,38 @@ class Scope:
     # ---- guards
     def cond(self, n):
         if isinstance(n, ast.Call) and isinstance(n.func, ast.Attribute) and n.func.attr == "any" \
-                and not n.args and not n.keywords:
+                and not n.args and not n.keywords and not (isinstance(n.func.value, ast.Name) and n.func.value.id in ("np", "numpy")):
             return self.cond(n.func.value)        # scalar model: any(x) = x
+        if isinstance(n, ast.Call) and isinstance(n.func, ast.Attribute) and n.func.attr == "any" \
+                and isinstance(n.func.value, ast.Name) and n.func.value.id in ("np", "numpy") \
+                and len(n.args) == 1 and not n.keywords:
+            return self.cond(n.args[0])           # np.any(x)
         if isinstance(n, ast.BoolOp):
             op = "||" if isinstance(n.op, ast.Or) else "&&"
             return "(" + f" {op} ".join(self.cond(v) for v in n.values) + ")"
-        if isinstance(n, ast.Compare) and len(n.ops) == 1:
-            a = self.scalar(n.left)
-            b = self.scalar(n.comparators[0])
-            op = n.ops[0]
-            if isinstance(op, ast.Gt):
-                return f"(decide ({b} < {a}))"
-            if isinstance(op, ast.Lt):
-                return f"(decide ({a} < {b}))"
-            if isinstance(op, ast.GtE):
-                return f"(decide ({b} ≤ {a}))"
-            if isinstance(op, ast.LtE):
-                return f"(decide ({a} ≤ {b}))"
+        if isinstance(n, ast.BinOp) and isinstance(n.op, (ast.BitOr, ast.BitAnd)):
+            op = "||" if isinstance(n.op, ast.BitOr) else "&&"      # elementwise | and & of boolean arrays
+            return f"({self.cond(n.left)} {op} {self.cond(n.right)})"
+        if isinstance(n, ast.UnaryOp) and isinstance(n.op, (ast.Not, ast.Invert)):
+            return f"(!{self.cond(n.operand)})"
+        if isinstance(n, ast.Compare):
+            terms = []
+            left = n.left
+            for op, right in zip(n.ops, n.comparators):
+                a = self.scalar(left)
+                b = self.scalar(right)
+                if isinstance(op, ast.Gt):
+                    terms.append(f"(decide ({b} < {a}))")
+                elif isinstance(op, ast.Lt):
+                    terms.append(f"(decide ({a} < {b}))")
+                elif isinstance(op, ast.GtE):
+                    terms.append(f"(decide ({b} ≤ {a}))")
+                elif isinstance(op, ast.LtE):
+                    terms.append(f"(decide ({a} ≤ {b}))")
+                else:
+                    self.fail(f"unsupported comparison in `{ast.unparse(n)}`", n)
+                left = right
+            return terms[0] if len(terms) == 1 else "(" + " && ".join(terms) + ")"
         self.fail(f"unsupported guard condition `{ast.unparse(n)}`", n)
 
     # ---- statements
@@ -314,6 +424,14 @@ class Scope:
                 if g is None:
                     self.fail(f"unsupported statement `{ast.unparse(st)}`", st)
                 self.guards.append((list(self.lets), g))
+                continue
+            if isinstance(st, ast.AugAssign) and isinstance(st.target, ast.Name):
+                if st.target.id not in self.locals:
+                    self.fail(f"augmented assignment to `{st.target.id}` before it is assigned", st)
+                self.bind(st.target.id, self.binop(st.op, lname(st.target.id), self.scalar(st.value), st))
+                continue
+            if isinstance(st, ast.AnnAssign) and st.value is not None and isinstance(st.target, ast.Name) and st.simple:
+                self.bind(st.target.id, self.scalar(st.value))
                 continue
             if isinstance(st, ast.Assign):
                 if len(st.targets) != 1:
@@ -363,8 +481,27 @@ class ModuleCtx:
 
     def __init__(self, tree, path):
         self.path = path
+        # python binds the LAST definition of a name (dict comprehension: later entries win)
         self.functions = {n.name: n for n in tree.body if isinstance(n, ast.FunctionDef)}
         self.classes = {n.name: n for n in tree.body if isinstance(n, ast.ClassDef)}
+        # module level `NAME = expr` / `NAME: float = expr` assigned exactly once (numeric constants; checked when used)
+        counts, values = {}, {}
+        for st in tree.body:
+            tgts = []
+            if isinstance(st, ast.Assign):
+                tgts = [t for t in st.targets]
+                val = st.value
+            elif isinstance(st, (ast.AnnAssign, ast.AugAssign)):
+                tgts = [st.target]
+                val = st.value if isinstance(st, ast.AnnAssign) else None
+            for t in tgts:
+                for nm in ast.walk(t):
+                    if isinstance(nm, ast.Name):
+                        counts[nm.id] = counts.get(nm.id, 0) + 1
+                        values[nm.id] = val if isinstance(t, ast.Name) else None
+        self.constants = {k: v for k, v in values.items() if counts[k] == 1 and v is not None
+                          and k not in self.functions and k not in self.classes}
+        self.constants_in_progress = set()
         self.emitted = {}
         self.out = []
 
@@ -458,9 +595,12 @@ class ClassCtx:
     # ---- lookup
     def find(self, mname, start):
         for i in range(start, len(self.mro)):
+            hit = None
             for st in self.mro[i].body:
                 if isinstance(st, ast.FunctionDef) and st.name == mname:
-                    return i, st
+                    hit = st              # python binds the LAST definition in a class body
+            if hit is not None:
+                return i, hit
         return None, None
 
     def ctor_binder_names(self, params):
@@ -667,20 +807,40 @@ def translate(repo):
             raise Untranslatable(entry["file"], f"syntax error: {e}")
         mod = ModuleCtx(tree, path)
         chunks.append(f"\n/-! ## {entry['file']} -/")
+        done = 0
         for cname, spec in entry["classes"].items():
             cc = ClassCtx(mod, cname, spec)
             cc.emit_attrs()
             for m in spec["methods"]:
                 cc.emit_method(m, 0, m)
+            if len(mod.out) > done:      # module level helper functions the class calls: they come first
+                chunks.append("")
+                chunks.append("\n\n".join(mod.out[done:]))
+                done = len(mod.out)
             chunks.append(f"\n/-! ### class {cname}({', '.join(cc.ctor)}) -/\n")
             chunks.append("\n\n".join(cc.out))
         for fname in entry["functions"]:
             mod.emit_function(fname)
-        if mod.out:
+        if len(mod.out) > done:
             chunks.append("")
-            chunks.append("\n\n".join(mod.out))
+            chunks.append("\n\n".join(mod.out[done:]))
     chunks.append("\nend PylifeVerif.Generated\n")
     return "\n".join(chunks)
+
+
+def unfold_module(text):
+    """Text of Generated/MaterialLawsUnfold.lean: a tactic that unfolds EVERY definition of the generated module (so that
+    the bridge proofs do not have to name helper methods / locals, which a harmless refactoring may add or remove)."""
+    import re
+    names = re.findall(r"^def (\S+) ", text, flags=re.M)
+    full = ",\n    ".join("PylifeVerif.Generated." + n for n in names)
+    return ("/-\nGENERATED by /verif/translate/translate.py together with Generated/MaterialLaws.lean.  DO NOT EDIT BY HAND.\n"
+            "`unfold_generated_material_laws` = `simp only` with every definition of Generated/MaterialLaws.lean (used by the\n"
+            "proofs only; not imported by the driver).  No Mathlib import.\n-/\n"
+            "import Generated.MaterialLaws\n\nnamespace PylifeVerif.Generated\n\n"
+            "/-- unfold every definition translated from rambgood.py / hookeslaw.py / true_stress_strain.py -/\n"
+            "macro \"unfold_generated_material_laws\" : tactic =>\n  `(tactic| simp only [\n    " + full + "])\n\n"
+            "end PylifeVerif.Generated\n")
 
 
 STATUS_OK = """/- GENERATED by /verif/translate/translate.py: status of the last translator run (imported by Proofs.C16). -/
@@ -716,11 +876,14 @@ def run(repo, lean_dir):
     gen = os.path.join(lean_dir, "Generated", "MaterialLaws.lean")
     status = os.path.join(lean_dir, "Generated", "MaterialLawsStatus.lean")
     try:
+        import closedform
+        write_if_changed(os.path.join(lean_dir, "Generated", "Prelude.lean"), closedform.PRELUDE)
         text = translate(repo)
     except Untranslatable as e:
         write_if_changed(status, status_failed(str(e)))
         return False, f"translator failed: {e}"
     changed = write_if_changed(gen, text)
+    write_if_changed(os.path.join(lean_dir, "Generated", "MaterialLawsUnfold.lean"), unfold_module(text))
     write_if_changed(status, STATUS_OK)
     return True, ("Generated/MaterialLaws.lean rewritten" if changed else "Generated/MaterialLaws.lean unchanged")
 
